@@ -262,6 +262,7 @@ impl JobServer {
                 }
             }
         };
+        vemit!("JsSetup", "own": token_fds.is_none(), "j": max_jobs, "cheatfd": cheat_fds.0);
         match token_fds {
             Some(token_fds) => Ok(JobServer {
                 params: Rc::new(ServerParams {
@@ -383,9 +384,11 @@ impl JobServer {
                         Vec::from_iter(state.token_wakers.iter().map(|&(id, _)| id)),
                         Vec::from_iter(rfds.fds(None))
                     );
+                    vgate!("select", "my": state.my_tokens, "cheats": state.cheats, "jobs": state.wait_fds.len(), "want": !state.token_wakers.is_empty());
                     select::select(None, Some(&mut rfds), None, None, max_delay.as_mut())
                         .map_err(RedoError::opaque_error)?;
                     debug_jobserver!("readable: {:?}", Vec::from_iter(rfds.fds(None)));
+                    vemit!("Select", "ready": Vec::from_iter(rfds.fds(None).map(|fd| if fd == self.params.token_fds.0 { 0 } else { state.wait_fds.get(&fd).map_or(-1, |j| j.pid.as_raw()) })), "my": state.my_tokens, "cheats": state.cheats);
 
                     for fd in rfds.fds(None) {
                         if fd == self.params.token_fds.0 {
@@ -399,6 +402,7 @@ impl JobServer {
                                 Some(1) => {
                                     state.my_tokens += 1;
                                     debug_jobserver!("read a token ({:?}).", &b);
+                                    vemit!("TokGet", "my": state.my_tokens, "cheats": state.cheats);
                                     if let Some((_, w)) = state.token_wakers.pop_front() {
                                         w.wake();
                                     }
@@ -407,6 +411,7 @@ impl JobServer {
                                 Some(_) => unreachable!("only reading 1 byte"),
                                 None => {
                                     // Token may have been stolen.
+                                    vemit!("TokMiss", "my": state.my_tokens, "cheats": state.cheats);
                                 }
                             }
                             continue;
@@ -422,9 +427,11 @@ impl JobServer {
                                 // someone exited with _cheats > 0, so we need to compensate
                                 // by *not* re-creating a token now.
                                 debug_jobserver!("EAT cheatfd {:?}", &b);
+                                vemit!("CheatEat", "my": state.my_tokens, "cheats": state.cheats);
                             }
                             Ok(None) | Ok(Some(0)) => {
                                 state.create_tokens(1);
+                                vemit!("TokCreate", "n": 1, "my": state.my_tokens, "cheats": state.cheats);
                                 if state.has_token() {
                                     state
                                         .release_except_mine(self.params.token_fds)
@@ -450,6 +457,7 @@ impl JobServer {
                             }
                         };
                         debug_jobserver!("done1: rv={}", status);
+                        vemit!("Reap", "child": pd.pid.as_raw(), "status": status, "my": state.my_tokens, "cheats": state.cheats);
                         {
                             let mut state = pd.state.borrow_mut();
                             state.exit_code = Some(status);
@@ -481,6 +489,7 @@ impl JobServer {
         );
         state.wait_fds.clear();
         state.create_tokens(n as i32);
+        vemit!("ForceReturn", "left": n, "my": state.my_tokens, "cheats": state.cheats);
         if state.has_token() {
             state
                 .release_except_mine(self.params.token_fds)
@@ -506,6 +515,7 @@ impl JobServer {
                 cheats
             );
             state.destroy_tokens(cheats);
+            vemit!("CheatPut", "n": state.cheats, "my": state.my_tokens, "cheats": state.cheats);
             write_tokens(self.params.cheat_fds.1, state.cheats as usize)
                 .map_err(RedoError::opaque_error)?;
         }
@@ -605,6 +615,7 @@ impl ServerState {
         }
         assert!(self.my_tokens >= 0);
         assert!(self.cheats >= 0);
+        vemit!("TokRel", "n": n, "shared": n_to_share, "my": self.my_tokens, "cheats": self.cheats);
         if n_to_share > 0 {
             debug_jobserver!("PUT tokenfds {}", n_to_share);
             write_tokens(token_fds.1, n_to_share)?;
@@ -672,6 +683,7 @@ impl JobServerHandle {
             ForkResult::Parent { child: pid } => {
                 helpers::close_on_exec(r, true).map_err(RedoError::opaque_error)?;
                 unistd::close(w).map_err(RedoError::opaque_error)?;
+                vemit!("JobStart", "child": pid.as_raw(), "name": reason, "my": self.state.borrow().my_tokens, "cheats": self.state.borrow().cheats);
                 let job_state = Rc::new(RefCell::new(JobState::default()));
                 self.state.borrow_mut().wait_fds.insert(
                     r,
@@ -785,6 +797,7 @@ impl JobServerHandle {
                         let mut state = self.state.borrow_mut();
                         state.my_tokens += n;
                         state.cheats += n;
+                        vemit!("Cheat", "n": n, "my": state.my_tokens, "cheats": state.cheats);
                         return Ok(());
                     }
                 }
@@ -887,6 +900,7 @@ impl AllJobsDone {
             .map_err(RedoError::opaque_error)?
             .unwrap_or(0);
         debug_jobserver!("toplevel: GOT {} tokens and {} cheats", tokens, cheats);
+        vemit!("SelfCheck", "tokens": tokens, "cheatbytes": cheats, "expect": self.params.top_level);
         if (tokens - cheats) as i32 != self.params.top_level {
             return Err(RedoError::new(format!(
                 "on exit: expected {} tokens; found {}-{}",
